@@ -470,7 +470,12 @@ def prog_worker(inst):
         out.setdefault("notes", "lazy build declined: %s" % type(e).__name__)
         return out
     try:
-        check_result_type(lz, pin, pout, exact_inputs=True)
+        # exactness is demanded of terms that stayed lazy; a substitution for a Stack's own (fresh) input is evaluated
+        # even under `lazy` and then omits the inputs of the parts that were not selected (the evaluated-term clause)
+        from funsor.terms import Funsor as _F
+        from funsor.tensor import Tensor as _T
+        stayed_lazy = not isinstance(lz, (_T, funsor.terms.Number)) and not (prog[0] == "subs" and not isinstance(lz, funsor.terms.Subs))
+        check_result_type(lz, pin, pout, exact_inputs=stayed_lazy)
     except TypeViolation as e:
         out.update(status="violation", kind="type", detail="lazy term: " + str(e))
     return out
